@@ -10,6 +10,7 @@ import (
 	"encoding/binary"
 	"errors"
 	"math/big"
+	"sync"
 
 	"golang.org/x/crypto/ripemd160"
 )
@@ -65,14 +66,24 @@ func ecAdd(a, b Point) Point {
 	return Point{X: x, Y: y}
 }
 
-// ScalarBase computes k*G by double-and-add.
+var (
+	gPowOnce sync.Once
+	gPow     [256]Point // 2^i * G
+)
+
+// ScalarBase computes k*G as a sum of precomputed 2^i*G (k < 2^256).
 func ScalarBase(k *big.Int) Point {
+	gPowOnce.Do(func() {
+		p := Point{X: Gx, Y: Gy}
+		for i := 0; i < 256; i++ {
+			gPow[i] = p
+			p = ecAdd(p, p)
+		}
+	})
 	r := Point{Inf: true}
-	g := Point{X: Gx, Y: Gy}
-	for i := k.BitLen() - 1; i >= 0; i-- {
-		r = ecAdd(r, r)
+	for i := 0; i < k.BitLen() && i < 256; i++ {
 		if k.Bit(i) == 1 {
-			r = ecAdd(r, g)
+			r = ecAdd(r, gPow[i])
 		}
 	}
 	return r
